@@ -367,7 +367,7 @@ func (c *chunkReader) Read(p []byte) (int, error) {
 
 func runC20(r *core.Run) {
 	firstCallClause(r, "smtext.", "align.Symmetrical", "align.GoString")
-	defer racePass(r, "race-C20", "GoString, Symmetrical and Get on one shared matrix")
+	racePass(r, "race-C20", "GoString, Symmetrical and Get on one shared matrix")
 
 	lists := labelLists(3)
 	r.Bound("tables", fmt.Sprintf("row and column label lists: every ordered list of 1..3 distinct labels from %q (%d lists each, so every order and rectangular shapes), scores cycling through %v with shift 0%s", ncbiLabels, len(lists), ncbiScores, core.Pick(r, "", "..5")))
@@ -645,20 +645,21 @@ func runC20(r *core.Run) {
 	type labelCase struct {
 		Where int    `json:"label_position"` // 0,1: header columns; 2,3: row labels
 		Token core.S `json:"token"`
+		Glue  string `json:"glued,omitempty"` // "": the token replaces the label; "before"/"after": it is glued to the label
 	}
-	r.Bound("multichar-labels", "the table ' A B / A 1 2 / B 3 4' (A, B also as the bytes 0xC3, 0xA9) with one label replaced by: every 2-byte token free of whitespace (65 536 minus those), the UTF-8 encoding of every code point U+0800..U+FFFF"+core.Pick(r, "", " and U+10000..U+10FFFF")+"; row labels never start with '#' (that would be a comment line)")
-	core.Clause(r, "readncbi-multichar-labels", core.Opts{Rule: "a label token of more than one BYTE is a multi-character label whatever its bytes are (one rune in UTF-8, two letters, a letter and '*'): (nil, error), never a matrix; non-trivial = all"},
+	r.Bound("multichar-labels", "the table ' A B / A 1 2 / B 3 4' (A, B also as the bytes 0xC3, 0xA9; the header indented and starting in column 0, i.e. its first label being the first bytes of the stream) with one label replaced by: every 2-byte token free of whitespace (65 536 minus those), the UTF-8 encoding of every code point U+0080..U+FFFF"+core.Pick(r, "", " and U+10000..U+10FFFF")+" alone (from U+0800), glued in front of the original label and glued behind it (byte order marks, zero-width and other invisible characters are among them); row labels, and a header label in column 0, never start with '#' (that would be a comment line)")
+	core.Clause(r, "readncbi-multichar-labels", core.Opts{Rule: "a label token of more than one BYTE is a multi-character label whatever its bytes are and wherever it stands (one rune in UTF-8, two letters, a letter and '*', an invisible character glued to a letter, at the very beginning of the input): (nil, error), never a matrix; non-trivial = all"},
 		func(emit func(labelCase) bool) {
 			ws := func(b int) bool {
 				return b == '\t' || b == '\n' || b == '\f' || b == '\r' || b == ' '
 			}
 			for where := 0; where < 4; where++ {
 				for a := 0; a < 256; a++ {
-					if ws(a) || (a == '#' && where >= 2) {
+					if ws(a) {
 						continue
 					}
 					for b := 0; b < 256; b++ {
-						if !ws(b) && !emit(labelCase{where, core.S([]byte{byte(a), byte(b)})}) {
+						if !ws(b) && !emit(labelCase{where, core.S([]byte{byte(a), byte(b)}), ""}) {
 							return
 						}
 					}
@@ -667,25 +668,47 @@ func runC20(r *core.Run) {
 				if r.Thorough() {
 					hi = 0x10FFFF
 				}
-				if !enum.Runes(0x800, hi, func(cp rune) bool { return emit(labelCase{where, core.S(string(cp))}) }) {
+				if !enum.Runes(0x80, hi, func(cp rune) bool {
+					if cp >= 0x800 && !emit(labelCase{where, core.S(string(cp)), ""}) {
+						return false
+					}
+					return emit(labelCase{where, core.S(string(cp)), "before"}) && emit(labelCase{where, core.S(string(cp)), "after"})
+				}) {
 					return
 				}
 			}
 		},
 		func(c labelCase) core.Outcome {
+			evals := 0
 			for _, labels := range [][2]string{{"A", "B"}, {"\xc3", "\xa9"}} {
-				tok := [4]string{labels[0], labels[1], labels[0], labels[1]}
-				tok[c.Where] = string(c.Token)
-				text := " " + tok[0] + " " + tok[1] + "\n" + tok[2] + " 1 2\n" + tok[3] + " 3 4\n"
-				m, err, pn := readNCBI(text)
-				if pn != "" {
-					return core.Failf("ReadNCBI panicked on %q: %s", text, pn)
-				}
-				if err == nil || m != nil {
-					return core.Failf("ReadNCBI(%q) with the %d-byte label %q returned matrix %v, error %v; want (nil, error)", text, len(c.Token), string(c.Token), m, err)
+				for _, indent := range []string{" ", ""} {
+					tok := [4]string{labels[0], labels[1], labels[0], labels[1]}
+					switch c.Glue {
+					case "before":
+						tok[c.Where] = string(c.Token) + tok[c.Where]
+					case "after":
+						tok[c.Where] = tok[c.Where] + string(c.Token)
+					default:
+						tok[c.Where] = string(c.Token)
+					}
+					if tok[c.Where][0] == '#' && (c.Where >= 2 || (c.Where == 0 && indent == "")) {
+						continue
+					}
+					text := indent + tok[0] + " " + tok[1] + "\n" + tok[2] + " 1 2\n" + tok[3] + " 3 4\n"
+					m, err, pn := readNCBI(text)
+					evals++
+					if pn != "" {
+						return core.Failf("ReadNCBI panicked on %q: %s", text, pn)
+					}
+					if err == nil || m != nil {
+						return core.Failf("ReadNCBI(%q) with the %d-byte label %q returned matrix %v, error %v; want (nil, error)", text, len(tok[c.Where]), tok[c.Where], m, err)
+					}
 				}
 			}
-			return core.Outcome{Class: fmt.Sprint("token bytes=", len(c.Token), " where=", c.Where), Nontrivial: true, Evals: 2}
+			if evals == 0 {
+				return core.Outcome{Skip: true}
+			}
+			return core.Outcome{Class: fmt.Sprint("token bytes=", len(c.Token), " where=", c.Where, " ", c.Glue), Nontrivial: true, Evals: evals}
 		})
 
 	type bigCase struct {
